@@ -4294,6 +4294,7 @@ spmatrix_sub(PyObject *self, PyObject *other)
     }
   else if (SpMatrix_Check(self) && !SpMatrix_Check(other)) {
     if ((ret = spmatrix_add_helper(self, other, 0))) {
+      if (ret == Py_NotImplemented) return ret;
       int n = MAT_LGT(other), id = MAT_ID(ret);
       scal[id](&n, &MinusOne[id], MAT_BUF(ret), &intOne);
       return ret;
